@@ -1,7 +1,7 @@
 import Asts.Proofs.L1_b_Loops
 
 /-! # L1_b — one reconcile (`updateStatefulSet`): every action justified; how the monitors classify the deletes -/
-namespace Asts
+namespace Asts.L1b
 open List
 
 /-- "a pod of the snapshot at ordinal `i` is Running, Ready and not terminating" -/
@@ -112,7 +112,7 @@ theorem mem_pre_of_lt {l pre post : List (Int × Pod)} {i : Int} {p : Pod}
 
 /-! ### how the snapshot-only classifier of the monitors sees the model's deletes -/
 
-def Why.cls : Why → DelClass
+def _root_.Asts.Why.cls : Why → DelClass
   | .scaleDown => .scale
   | .replaceFailed => .replace
   | .update => .update
@@ -203,4 +203,4 @@ theorem updateDeletes_observe {v : SetView} {cur upd : String} {mono : Bool} {po
 theorem observe_ord (a : Action) : a.observe.ord = a.ord := by cases a <;> rfl
 theorem observe_isCD (a : Action) : (a.observe.isCreate || a.observe.isDelete) = a.isCD := by cases a <;> rfl
 
-end Asts
+end Asts.L1b
